@@ -80,7 +80,12 @@ ASSUMPTIONS = [
     "tenmat's explicit precondition ('must be a numeric numpy.ndarray') inside hosvd / nvecs / cp_apr and is outside the domain",
 ]
 BOUNDS = {
-    "quick": "shapes (3,4),(2,3,4),(3,3,3), maxiters {1,2,3}, seeds {0,1,2}, scale {4,1/4,2^-24,2^20}, ALL N! mode permutations.  "
+    "quick": "shapes (3,4),(2,3,4),(3,3,3) and the unbalanced order-4 shape (4,2,2,2), maxiters {1,2,3}, seeds {0,1,2}, scale "
+             "{4,1/4,2^-24,2^20}, ALL N! mode permutations for N<=3 (order 4: a generating set of 3 - reversal, rotation, "
+             "transposition; all 24 for gcp_opt and for the default tucker_als base).  Storage (every algorithm, every "
+             "explicit-start case): dense holder with the widest (int64), the narrowest signed and the narrowest unsigned "
+             "integer dtype that hold the values exactly, dense tensor built by growth, and (cp_als, cp_apr) sptensor with "
+             "the narrowest signed dtype; random / nvecs starts: narrowest signed dense.  "
              "cp_als: 4 members (generic, rank-2+noise, exact rank 2, counts with an empty slice) x rank 1..3 x explicit "
              "integer guess x 3 dimorders x optdims {all, drop-first} x stoptol {0,1e-2}; + random starts (3 seeds) and "
              "nvecs starts; variants: sptensor (printitn 0,1), printitn {1,2,3}, scale (dense, sparse), relabel.  cp_apr: 4 "
@@ -93,14 +98,15 @@ BOUNDS = {
              "counts with an empty slice) x ranks {1, 2, two vectors} x explicit start list x (default + 2 dimorders) x "
              "stoptol {0,1e-2}; + random starts (3 seeds, default and reversed order) and nvecs; variants: printitn {1,2,3}, "
              "scale, relabel, same seed.  gcp_opt/L-BFGS-B: Gaussian (2 members), Poisson (2 members) x rank 1..2 x maxiter "
-             "{1,2,3} x explicit guess + 3 seeds; variants: printitn {1,2,3}, iprint {0,1}, same seed.  "
-             "5932 cases, 45224 compared pairs",
+             "{1,2,3} x explicit guess + 3 seeds; variants: printitn {1,2,3}, iprint {0,1}, same seed, relabel (all N!), storage.  "
+             "cp_apr on the order-4 shape: maxiters {1,2}.  7740 cases, 91418 pairs of runs",
     "thorough": "adds shapes (4,3,2),(2,2,2,3),(2,3,2,2) (all 24 permutations on the default / identity / reversed bases, a "
                 "generating set of 3 elsewhere; cp_apr: (2,2,2,3) only), maxiters 4, more members / value seeds, further "
                 "guesses, all N! dimorders as base order for N<=3, optdims {single mode}, stoptol 1e-4, sparse holder "
                 "combined with every printing setting, scaling and relabelling, hosvd tol {.05,.9} + 2 more rank vectors and "
                 "verbosity {-1,6}, cp_apr rank 3 and stoptol 1e-2, more GCP objectives (Poisson-log, Rayleigh, Gamma), rank 3, "
-                "iprint 99.  41100 cases, 453922 compared pairs",
+                "iprint 99; storage: EVERY exact dtype of int64/int32/int16/int8/uint8 for the dense and (cp_als, cp_apr) the "
+                "sparse holder; cp_apr also on (4,2,2,2) with maxiters up to 4.  48891 cases, 905854 pairs of runs",
 }
 CHUNK = 6
 
